@@ -670,6 +670,38 @@ fn run(op: &Value) -> Value {
             }
             json!({"http": show(verif_types::types::p::HttpUpstreamFailed::new("z", 7, "s")), "plain": show(verif_types::types::p::PlainErr::new())})
         }
+        "client_macro_status" => {
+            // C18: the #[conjure_client] client (ConjureResponseDeserializer) with an `any` result against a scripted response, blocking and async
+            use conjure_http::client::{AsyncClient, AsyncRequestBody, AsyncService as AsyncClientService, Client, RequestBody, Service as ClientService};
+            use verif_endpoints::{SvcApi, SvcApiAsync, SvcApiAsyncClient, SvcApiClient};
+            type Items = std::vec::IntoIter<Result<bytes::Bytes, conjure_error::Error>>;
+            #[derive(Clone)]
+            struct Scripted(u16, Option<String>, Vec<u8>);
+            impl Scripted {
+                fn response<B>(&self, body: B) -> http::Response<B> {
+                    let mut r = http::Response::new(body);
+                    *r.status_mut() = http::StatusCode::from_u16(self.0).unwrap();
+                    if let Some(ct) = &self.1 { r.headers_mut().insert(http::header::CONTENT_TYPE, http::HeaderValue::from_str(ct).unwrap()); }
+                    r
+                }
+                fn items(&self) -> Vec<Result<bytes::Bytes, conjure_error::Error>> { if self.2.is_empty() { vec![] } else { vec![Ok(bytes::Bytes::from(self.2.clone()))] } }
+            }
+            impl Client for Scripted {
+                type BodyWriter = Vec<u8>;
+                type ResponseBody = Items;
+                fn send(&self, _req: http::Request<RequestBody<'_, Vec<u8>>>) -> Result<http::Response<Items>, conjure_error::Error> { Ok(self.response(self.items().into_iter())) }
+            }
+            impl AsyncClient for Scripted {
+                type BodyWriter = Vec<u8>;
+                type ResponseBody = futures::stream::Iter<Items>;
+                async fn send(&self, _req: http::Request<AsyncRequestBody<'_, Vec<u8>>>) -> Result<http::Response<Self::ResponseBody>, conjure_error::Error> { Ok(self.response(futures::stream::iter(self.items()))) }
+            }
+            let sc = Scripted(op["status"].as_u64().unwrap_or(200) as u16, op["content_type"].as_str().map(|x| x.to_string()), hex(op["body"].as_str().unwrap_or("")));
+            let show = |r: Result<conjure_object::Any, conjure_error::Error>| match r { Ok(v) => json!({"ok": true, "returned": conjure_serde::json::to_string(&v).unwrap_or_default()}), Err(e) => json!({"ok": false, "cause": e.cause().to_string()}) };
+            let b = show(<SvcApiClient<Scripted> as ClientService<Scripted>>::new(sc.clone()).e4());
+            let a = show(futures::executor::block_on(<SvcApiAsyncClient<Scripted> as AsyncClientService<Scripted>>::new(sc).e4()));
+            json!({"blocking": b, "async": a})
+        }
         "client_gen_status" => {
             // C18: the client emitted by the real generator against a scripted response (status, Content-Type, one body chunk)
             use conjure_http::client::{Client, RequestBody, Service as ClientService};
